@@ -1141,6 +1141,108 @@ def run_vi(res, case):
                  "identical outputs, global state untouched", signature="C18:vi-model-ignores-rng")
 
 
+# ------------------------------------------------------------------ cross-process stream (per-process string-hash salt)
+XPROC_HASHSEEDS = (0, 1, 2)
+
+
+def gen_pairwise_screen(rng):
+    """all-masked screen on which PairwisePlateGenerator has a real choice per sample: 2-3 samples, each with combination rows over 5-6
+    treatments (several generated plates per sample) and 2-4 single-drug rows to be assigned to one of them"""
+    ns, nt = rng.randint(2, 3), rng.randint(5, 6)
+    rows, pid = [], 0
+    for s in range(ns):
+        for _ in range(rng.randint(8, 12)):
+            a = rng.randrange(nt)
+            b = (a + rng.randint(1, nt - 1)) % nt
+            rows.append(["s%d" % s, "p%d" % (pid // 4), "t%d" % a, "t%d" % b, round(0.05 + 0.9 * rng.random(), 6), False])
+            pid += 1
+        for _ in range(rng.randint(2, 4)):
+            rows.append(["s%d" % s, "p%d" % (pid // 4), "t%d" % rng.randrange(nt), "control", round(0.05 + 0.9 * rng.random(), 6), False])
+            pid += 1
+    rng.shuffle(rows)
+    return {"rows": rows}
+
+
+def gen_xproc_cases(rng, scale):
+    """the seeded operations whose repetition in ANOTHER interpreter process must give the same output"""
+    plan = [("generator", 2), ("smoother", 3), ("sparse_cover", 2), ("holdout_random", 1), ("holdout_plate", 2), ("scorer_random", 1), ("dbal_direct", 1),
+            ("policy", 1), ("select_next_plate", 2), ("score_chunk", 2), ("sample_mcmc", 1), ("cli_prepare", 3)]
+    cases = []
+    for op, w in plan:
+        for _ in range(w * scale):
+            c = gen_case(rng, op)
+            if "rng_given" in c:
+                c["rng_given"] = True
+            if op == "sample_mcmc":
+                c.update(n_thetas=1, n_burnin=1, thin=1)
+            cases.append(c)
+    for i in range(6 * scale):             # PairwisePlateGenerator with >= 2 samples that have single-drug rows and several candidate plates
+        c = {"op": "generator", "seed": (0 if i == 0 else rng.getrandbits(31)), "gseed": rng.getrandbits(31), "screen": gen_pairwise_screen(rng),
+             "gen": {"kind": "pairwise", "subset_size": 1, "anchor_size": rng.choice([0, 0, 1])}, "xproc_pairwise": True}
+        if rng.random() < 0.4:
+            c["gen"].update(subset_size=2, anchor_size=rng.choice([0, 2]))
+        cases.append(c)
+    for i in range(2 * scale):             # the same screens through the command-line step
+        c = gen_case(rng, "cli_prepare")
+        c.update(screen=gen_pairwise_screen(rng), init=None, gen={"kind": "pairwise", "subset_size": 1, "anchor_size": 0}, smoother=None)
+        for r in c["screen"]["rows"]:
+            r[5] = True                    # prepare_retrospective_simulation takes a fully observed screen
+        cases.append(c)
+    return cases
+
+
+def run_workers(cases, hashseeds, timeout=600):
+    """the same case list in one worker process per hash seed (in parallel); returns {hashseed: digests or error string}"""
+    import json
+    import subprocess
+    tmp = tempfile.mkdtemp(prefix="verif_c18x_")
+    out = {}
+    try:
+        fn = os.path.join(tmp, "cases.json")
+        with open(fn, "w") as f:
+            json.dump(cases, f)
+        worker = os.path.join(os.path.dirname(os.path.abspath(__file__)), "c18_worker.py")
+        procs = []
+        for hs in hashseeds:
+            env = dict(os.environ, PYTHONHASHSEED=str(hs))
+            procs.append((hs, subprocess.Popen([sys.executable, worker, fn], env=env, stdout=subprocess.PIPE, stderr=subprocess.PIPE, text=True)))
+        for hs, p in procs:
+            try:
+                so, se = p.communicate(timeout=timeout)
+            except subprocess.TimeoutExpired:
+                p.kill()
+                out[hs] = "worker timed out"
+                continue
+            line = [l for l in so.splitlines() if l.startswith("C18X ")]
+            if p.returncode != 0 or not line:
+                out[hs] = "worker failed (rc %s): %s" % (p.returncode, se[-400:])
+            else:
+                out[hs] = json.loads(line[-1][5:])
+    finally:
+        shutil.rmtree(tmp, ignore_errors=True)
+    return out
+
+
+def judge_xproc(cases, hashseeds, res, count=None):
+    got = run_workers(cases, hashseeds)
+    bad = {hs: g for hs, g in got.items() if not isinstance(g, dict)}
+    if bad:
+        raise RuntimeError("C18 cross-process worker: %s" % bad)
+    if any(g.get("torch_imported") for g in got.values()):
+        res.notes.append("cross-process worker imported torch")
+    for i, case in enumerate(cases):
+        ds = {hs: got[hs]["digests"][i] for hs in hashseeds}
+        if count is not None:
+            count(case, ds)
+        if len(set(ds.values())) > 1:
+            hs0 = hashseeds[0]
+            other = next(hs for hs in hashseeds if ds[hs] != ds[hs0])
+            res.fail("a seeded step repeated in another interpreter process (identical inputs, identically seeded generator, different per-process "
+                     "string-hash salt PYTHONHASHSEED) gives a different output", {"op": "xproc", "hashseeds": [hs0, other], "inner": case},
+                     {"digest by PYTHONHASHSEED": {str(k): v for k, v in ds.items()}}, "identical digests in every process",
+                     signature="C18:cross-process:" + case["op"])
+
+
 def warm_up():
     """import everything the CLI steps import lazily (seaborn/scipy.stats run generator code at import time) BEFORE instrumenting"""
     import importlib
@@ -1213,6 +1315,18 @@ def run(ctx, res):
                 res.count(op + "." + case["model"]["kind"])
             if 0 in (case.get("seed"), case.get("s1"), case.get("s2")):
                 res.count("seed0." + op)
+    # cross-process stream: the same seeded cases in one fresh interpreter per PYTHONHASHSEED
+    xcases = gen_xproc_cases(ctx.subrng("c18x"), 1 if ctx.tier == "quick" else 6)
+
+    def xcount(case, ds):
+        res.evaluations += 1
+        res.count("xproc." + case["op"] + (".pairwise_single_rows" if case.get("xproc_pairwise") else ""))
+        if not any(d.startswith("err:") for d in ds.values()):
+            res.nontrivial.add(common.short_hash(["xproc", case]))
+        else:
+            res.count("xproc.raised." + case["op"])
+    judge_xproc(xcases, list(XPROC_HASHSEEDS), res, xcount)
+    res.count("xproc.processes", len(XPROC_HASHSEEDS))
     vi_case = {"op": "sample_vi", "seed": 5, "gseed": rng.getrandbits(20)}
     res.evaluations += 1
     run_vi(res, vi_case)
@@ -1227,6 +1341,9 @@ def run(ctx, res):
 
 
 def replay(ctx, case, res):
+    if case.get("op") == "xproc":
+        judge_xproc([case["inner"]], list(case["hashseeds"]) + [h for h in (0, 1, 2, 3, 4, 5) if h not in case["hashseeds"]], res)
+        return
     warm_up()
     if case.get("op") == "sample_vi":
         run_vi(res, case)
